@@ -4,6 +4,7 @@ import Verif.Lemmas.Rpc
 import Verif.Lemmas.StdioIn
 import Verif.Lemmas.HttpDecide
 import Verif.Lemmas.SseReq
+import Verif.Lemmas.StdioCodec
 
 /-! # Composition lemmas for C15
 
@@ -23,6 +24,10 @@ set_option linter.unusedSimpArgs false
 set_option linter.unusedVariables false
 namespace Verif.Lemmas.Carrier
 open Verif.Model Verif.Model.Carrier
+-- the stdio line of the real codec (`strip_codes`, `cleanWire_emit`, `real_stdio_decodes`, …): shared with C05 / C06
+open Verif.Lemmas.StdioCodec
+export Verif.Lemmas.StdioCodec (isScalar_toNat validText_codes lf_notin_codes dropSpaces_head strip_clean strip_codes
+  emit_obj getLast_wrap cleanWire_emit chars_codes real_stdio_decodes)
 
 variable {σ μ γ β δ ε : Type}
 
@@ -101,53 +106,6 @@ theorem cutAt_flatten {α : Type} (l : List α) (cuts : List Nat) (pos : Nat) : 
 /-! ## stdio -/
 section stdio
 open Verif.Model.StdioIn Verif.Lemmas.StdioIn
-
-theorem isScalar_toNat (c : Char) : isScalar c.toNat = true := by
-  have := c.valid
-  simp only [isScalar, Bool.or_eq_true, decide_eq_true_eq, Bool.and_eq_true]
-  rcases this with h | ⟨h1, h2⟩
-  · left; exact h
-  · right; exact ⟨h1, h2⟩
-
-theorem validText_codes (t : List Char) : ValidText (codes t) := by
-  intro n hn
-  simp only [codes, List.mem_map] at hn
-  obtain ⟨c, _, rfl⟩ := hn
-  exact isScalar_toNat c
-
-theorem lf_notin_codes (t : List Char) (h : '\n' ∉ t) : LF ∉ codes t := by
-  intro hn
-  simp only [codes, List.mem_map] at hn
-  obtain ⟨c, hc, he⟩ := hn
-  have : c = '\n' := by
-    apply Char.ext; apply UInt32.toNat_inj.mp
-    simpa [LF] using he
-  exact h (this ▸ hc)
-
-theorem dropSpaces_head (s : List Nat) (h : ∀ c, s.head? = some c → isPySpace c = false) : dropSpaces s = s := by
-  cases s with
-  | nil => rfl
-  | cons c r => simp [dropSpaces, h c rfl]
-
-theorem strip_clean (s : List Nat) (h1 : ∀ c, s.head? = some c → isPySpace c = false)
-    (h2 : ∀ c, s.getLast? = some c → isPySpace c = false) : strip s = s := by
-  unfold strip
-  rw [dropSpaces_head s h1, dropSpaces_head s.reverse (by simpa using h2)]
-  simp
-
-theorem strip_codes (t : List Char) (h : CleanWire t) : strip (codes t) = codes t ∧ codes t ≠ [] := by
-  obtain ⟨_, _, hh, hl⟩ := h
-  constructor
-  · apply strip_clean
-    · intro c hc
-      simp only [codes, List.head?_map, hh, Option.map_some, Option.some.injEq] at hc
-      subst hc; decide
-    · intro c hc
-      simp only [codes, List.getLast?_map, hl, Option.map_some, Option.some.injEq] at hc
-      subst hc; decide
-  · intro he
-    simp only [codes, List.map_eq_nil_iff] at he
-    simp [he] at hh
 
 /-- what the reader delivers for the line of one message -/
 theorem stdio_line (cfg : StdioIn.Cfg μ) (W : Wire σ μ) (s : σ) (b : Bool) (h : StdioDecodes cfg W s) :
@@ -469,13 +427,6 @@ end sse
 section real
 open Verif.Model.Json Verif.Model.Rpc
 
-theorem emit_obj (m : Msg) : ∃ o, emit m = .obj o := by
-  cases m with
-  | request id method params => exact ⟨_, rfl⟩
-  | notification method params => exact ⟨_, rfl⟩
-  | response id r => exact ⟨_, rfl⟩
-  | error id e => cases id <;> exact ⟨_, rfl⟩
-
 theorem legacy_emit (m : Msg) (h : Ok m) (hr : ObjResult m) :
     ∃ o, emit m = .obj o ∧ legacyValidate o = some (view m) ∧ idKey o = (view m).id.map keyOfId := by
   cases m with
@@ -518,28 +469,6 @@ theorem legacy_emit (m : Msg) (h : Ok m) (hr : ObjResult m) :
       · simp [legacyValidate, view, getKey, optId, optStr, optObj, hk.1, hk.2,
           kJsonrpc, kId, kMethod, kParams, kResult, kError, v20]
       · simp [idKey, getKey, view, kJsonrpc, kId]
-
-theorem getLast_wrap (a b : Char) (l : List Char) : (a :: (l ++ [b])).getLast? = some b := by
-  rw [← List.cons_append, List.getLast?_append]; simp
-
-theorem cleanWire_emit (st : Style) (m : Msg) (hw : wfMsg m = true) : CleanWire (enc st (emit m)) := by
-  obtain ⟨o, ho⟩ := emit_obj m
-  have hb := enc_noBreak st (emit m) (wf_emit m hw)
-  refine ⟨hb.1, hb.2, ?_, ?_⟩
-  · rw [ho]; simp [enc]
-  · rw [ho]; simp only [enc]; exact getLast_wrap _ _ _
-
-theorem chars_codes (t : List Char) : chars (codes t) = t := by
-  simp [chars, codes, Function.comp_def]
-
-theorem real_stdio_decodes (st : Style) (m : Msg) (hb : Built m) (hw : wfMsg m = true) :
-    StdioDecodes realStdio (rpcWire st) m := by
-  refine ⟨cleanWire_emit st m hw, ?_⟩
-  have hp := parse_emit_of_ok m (built_ok hb)
-  obtain ⟨o, ho⟩ := emit_obj m
-  simp only [rpcWire, realStdio, chars_codes, dec_enc st (emit m) (wf_emit m hw)]
-  rw [ho] at hp ⊢
-  simp only [hp]
 
 theorem real_http_decodes (st : Style) (m : Msg) (hb : Built m) (hw : wfMsg m = true) (hr : ObjResult m) :
     HttpDecodes realHttp (rpcWire st) m := by
